@@ -98,7 +98,10 @@ func verifyFunction(fn *ssa.Function) (res *FuncResult) {
 			if err != "" {
 				fatal("contract error in ensures of %s: %s", res.Name, err)
 			}
-			name := strings.Join(c.Labels, ",")
+			name := ""
+			if len(c.Labels) > 0 {
+				name = c.Labels[0]
+			}
 			o := &Obl{Fn: res.Name, Kind: "ensures", Guard: retReach, Goal: t, Props: labelProps(c.Labels), Snip: c.Src, Name: name}
 			if len(o.Props) == 0 {
 				o.Props = []string{"C13"}
@@ -121,6 +124,7 @@ func verifyFunction(fn *ssa.Function) (res *FuncResult) {
 	}
 	sort.Strings(res.Trusted)
 	res.Axioms = append(ex.stringAxioms(), globalAxioms...)
+	res.Axioms = append(res.Axioms, ex.heapValidityAxioms()...)
 	nameObligations(res)
 	return
 }
@@ -186,3 +190,43 @@ func hasProp(o *Obl, props map[string]bool) bool {
 }
 
 var _ = types.Typ
+
+// heapValidityAxioms: every reference stored in entry-state memory denotes an
+// object that existed at entry (Go memory safety): rid <= A0.
+func (ex *Exec) heapValidityAxioms() []*Term {
+	var out []*Term
+	var names []string
+	for n := range ex.pre.arrs {
+		names = append(names, n)
+	}
+	sort.Strings(names)
+	for _, n := range names {
+		if !strings.HasPrefix(n, "M$") && !strings.HasPrefix(n, "A$") {
+			continue
+		}
+		T := keyToType[n[2:]]
+		if T == nil || !needsValidity(T) {
+			continue
+		}
+		arr := Var(n+"@pre", memArrays[n])
+		r := BoundVar("hv$r", SRef)
+		var sel *Term
+		var vars []*Term
+		if strings.HasPrefix(n, "M$") {
+			sel = App("select", arr.Sort.Elem, arr, r)
+			vars = []*Term{r}
+		} else {
+			i := BoundVar("hv$i", BV(64))
+			sel = App("select", arr.Sort.Elem.Elem, App("select", arr.Sort.Elem, arr, r), i)
+			vars = []*Term{r, i}
+		}
+		var cs []*Term
+		for _, p := range refParts(sel, T) {
+			cs = append(cs, Or(Eq(p, Null), ILe(Acc("rid", p), ex.A0)))
+		}
+		if len(cs) > 0 {
+			out = append(out, Forall(vars, And(cs...), sel))
+		}
+	}
+	return out
+}
